@@ -93,6 +93,30 @@ pub fn in_domain(s: &Scenario) -> Result<(), String> {
                 return Err("bound/hiding".into());
             }
         }
+        Family::Kzg10 => {
+            if c.max_degree < 1 || c.supported_degree < 1 || c.supported_degree > c.max_degree || c.supported_hiding < 1 || c.supported_hiding > c.max_degree {
+                return Err("configuration".into());
+            }
+            for p in &s.polys {
+                if p.degree > c.supported_degree || p.degree_bound.is_some() {
+                    return Err(format!("{}: degree/bound", p.label));
+                }
+                if let Some(h) = p.hiding {
+                    if h < 1 || h > c.supported_hiding {
+                        return Err(format!("{}: hiding", p.label));
+                    }
+                }
+            }
+        }
+        Family::Mlpc => {
+            match c.num_vars {
+                Some(nv) if nv >= 1 && nv <= c.max_degree && c.supported_degree == nv => {}
+                _ => return Err("multilinear PST needs 1 <= nv <= setup arity".into()),
+            }
+            if s.polys.iter().any(|p| p.degree_bound.is_some() || p.hiding.is_some()) {
+                return Err("bound/hiding".into());
+            }
+        }
         Family::ULigero => {
             if c.max_degree < 1 {
                 return Err("max_degree".into());
